@@ -21,7 +21,7 @@ RULE = ("Hypothesis-generated hierarchies of 2-5 classes (chains, diamonds D(B,C
         "with a slot taken from a non-adjacent ancestor, or a merged-invalid default, or a type change; distinct = case hash.")
 ASSUMPTIONS = [
     "each level's own declaration is constructible on its own (otherwise the case is a constructor-time rejection: counted, no claim)",
-    "slot families: Parameter/Number/Integer, Parameter/String and Parameter/Range; readonly, Selector, Tuple and List slots not generated",
+    "slot families: Parameter/Number/Integer, Parameter/String and Parameter/Range; Tuple slots not generated",
 ]
 SIZES = {"quick": 2500, "thorough": 15000}
 
@@ -64,6 +64,8 @@ _common = {
     "doc": st.sampled_from(["d1", "d2"]), "label": st.sampled_from(["L1", "L2"]), "precedence": st.sampled_from([0.5, 2]),
     "allow_None": st.booleans(), "instantiate": st.booleans(), "constant": st.booleans(), "per_instance": st.booleans(),
     "allow_refs": st.booleans(), "pickle_default_value": st.booleans(),
+    # (mostly the explicit False nobody normally writes: it must leave `constant` to be inherited)
+    "readonly": st.sampled_from([False, False, False, True]),
 }
 _numeric = dict(_common, **{
     "default": st.sampled_from([0, 0.5, 5, -3, 15, None, 2.5, 2, 7]),
@@ -249,6 +251,9 @@ def execute(case):
         for slot in TYPE_SLOTS[t]:
             if slot in ("allow_None", "instantiate"):
                 continue
+            if slot == "constant" and own.get("readonly") is True:
+                out[slot] = True           # readonly=True in the declaration itself implies constant=True
+                continue
             if slot in own:
                 out[slot] = own[slot]
                 continue
@@ -276,8 +281,8 @@ def execute(case):
             out["allow_None"] = False
         # instantiate: True if the class or any ancestor says so
         inst = own.get("instantiate", TYPE_DEFAULT[t]["instantiate"])
-        if out.get("readonly"):
-            inst = False
+        if own.get("readonly") is True:
+            inst = False               # (decided when the Parameter is constructed: from its own keyword only)
         out["instantiate"] = bool(inst) or any(resolve(j)["instantiate"] for j in anc)
         resolved[i] = out
         return out
